@@ -16,8 +16,10 @@ Verdict(e) ==
          (IF Len(e.ia) # Len(e.iref) \/ \E k \in DOMAIN e.ia : e.ia[k] = 0 \/ e.iref[k] = 0 THEN "HarnessScenario"
           ELSE IF e.raised = 1 THEN "NormalizeTotal"
           ELSE IF Len(e.relexp) # Len(e.ia) THEN "PerSliceSeparation"
-          ELSE IF \E k \in DOMAIN e.ia : e.relexp[k] > -9 THEN "NormalizeEqualises"
-          ELSE IF \E k \in DOMAIN e.ia : e.ratioexp[k] > -9 THEN "RatioIsQuotientOfIntegrals"
+          ELSE IF \E k \in DOMAIN e.ia : e.relexp[k] > (IF e.dtype = "float32" THEN -5 ELSE -9) THEN "NormalizeEqualises"
+          ELSE IF \E k \in DOMAIN e.ia : e.ratioexp[k] > (IF e.dtype = "float32" THEN -5 ELSE -9) THEN "RatioIsQuotientOfIntegrals"
+          ELSE IF e.scaledexp > (IF e.dtype = "float32" THEN -5 ELSE -12) THEN "NormalizedIsRescaledImage"
+          ELSE IF e.inputs_unchanged = 0 THEN "NormalizeLeavesInputs"
           ELSE "ok")
 Judge(e) == LET r == Verdict(e) IN IF r = "ok" THEN TRUE ELSE PrintT(<<"BAD", e.tid, l, r>>)
 Next == /\ l <= Len(Lines)
